@@ -3,96 +3,72 @@
    [pip] is net.ParseIP (any function: the theorems hold for every parser); a configuration is the list
    of configured CIDR entries after net.ParseCIDR, [None] = the entry did not parse.
    [(Peer, default_scheme q)] = exactly the TCP peer's address and the connection's scheme.
-   [resolve pip = resolve_gen pip false] is the code as it is, [resolve_gen pip true] the code after
-   fixes/C32-unusable-list-fails-closed.patch. *)
+   [resolve_gen pip true] is the CURRENT code (since /repo 4284846: only "no entry configured" means trust every
+   peer); [resolve_gen pip false] (= [resolve pip]) is the code before that fix — historical Examples at the end. *)
 From Verif Require Import Bytes Codec ClientIP ClientIPProofs.
 Local Open Scope N_scope.
 
-(* The property, first half: the values shown to the authorizer differ from the peer's only if forwarded
-   headers are trusted AND the peer is a known address AND (no list was configured OR the peer lies in a
-   configured CIDR). *)
-Definition C32_forwarded_only_if_trusted_full (fixed : bool) : Prop :=
-  forall (pip : bytes -> option N) trust cfg q,
-  resolve_gen pip fixed trust cfg q <> (Peer, default_scheme q) ->
+(* first half: the values shown to the authorizer differ from the peer's only if forwarded headers are trusted
+   AND the peer is a known address AND (no list was configured OR the peer lies in a configured CIDR) *)
+Theorem C32_forwarded_only_if_trusted_full : forall (pip : bytes -> option N) trust cfg q,
+  resolve_gen pip true trust cfg q <> (Peer, default_scheme q) ->
   trust = true /\
   exists t p, q_remote q = Some t /\ pip t = Some p /\
     (cfg = [] \/ exists c, In (Some c) cfg /\ contains c p = true).
+Proof. exact fixed_forwarded_only_if_trusted_stmt. Qed.
+Print Assumptions C32_forwarded_only_if_trusted_full.
 
 (* second half: a configured list none of whose entries is usable trusts nobody *)
-Definition C32_unusable_list_trusts_nobody_full (fixed : bool) : Prop :=
-  forall (pip : bytes -> option N) trust cfg q,
+Theorem C32_unusable_list_trusts_nobody_full : forall (pip : bytes -> option N) trust cfg q,
   cfg <> [] -> (forall e, In e cfg -> e = None) ->
-  resolve_gen pip fixed trust cfg q = (Peer, default_scheme q).
+  resolve_gen pip true trust cfg q = (Peer, default_scheme q).
+Proof. exact fixed_unusable_list_trusts_nobody_stmt. Qed.
+Print Assumptions C32_unusable_list_trusts_nobody_full.
 
-(* both are violated by the code: TRUSTED_PROXY_CIDRS="10.0.0.1" (mask forgotten) — any internet host may
-   dictate client IP and scheme *)
-Theorem C32_forwarded_only_if_trusted_refuted : ~ C32_forwarded_only_if_trusted_full false.
-Proof. exact forwarded_only_if_trusted_refuted_stmt. Qed.
-Print Assumptions C32_forwarded_only_if_trusted_refuted.
+(* the decision is exact: a trusted, known peer (no list, or inside a configured CIDR) DOES get its forwarded
+   headers honoured, by the documented precedence *)
+Theorem C32_trusted_proxy_honoured : forall (pip : bytes -> option N) cfg q t p,
+  q_remote q = Some t -> pip t = Some p ->
+  (cfg = [] \/ exists c, In (Some c) cfg /\ contains c p = true) ->
+  resolve_gen pip true true cfg q =
+   (match header_value (q_cf q) with
+    | Some v => match pip (trim_space v) with Some a => Fwd a | None => Peer end
+    | None => match header_value (q_xff q) with
+              | Some v => match pip (trim_space (first_part v)) with Some a => Fwd a | None => Peer end
+              | None => Peer
+              end
+    end,
+    match header_value (q_proto q) with
+    | Some v => match parse_forwarded_scheme v with Some s => s | None => default_scheme q end
+    | None => default_scheme q
+    end).
+Proof. exact trusted_proxy_honoured_stmt. Qed.
+Print Assumptions C32_trusted_proxy_honoured.
 
-Theorem C32_unusable_list_trusts_nobody_refuted : ~ C32_unusable_list_trusts_nobody_full false.
-Proof. exact unusable_list_trusts_nobody_refuted_stmt. Qed.
-Print Assumptions C32_unusable_list_trusts_nobody_refuted.
-
-Theorem C32_refuting_witness :
-  resolve wit_pip true [None] wit_req = (Fwd 281470849515521, B"https") /\
-  q_remote wit_req = Some B"203.0.113.9" /\ default_scheme wit_req = B"http".
-Proof. exact refuting_witness_stmt. Qed.
-Print Assumptions C32_refuting_witness.
-
-(* what the code does, for every parser, configuration and request: forwarded values are used only if
-   trusted, peer known, and (EVERY configured entry unusable — which includes "none configured" — or the
-   peer is contained in a usable one) *)
-Theorem C32_trust_decision : forall (pip : bytes -> option N) trust cfg q,
-  resolve pip trust cfg q <> (Peer, default_scheme q) ->
-  trust = true /\
-  exists t p, q_remote q = Some t /\ pip t = Some p /\
-    ((forall e, In e cfg -> e = None) \/ exists c, In (Some c) cfg /\ contains c p = true).
-Proof. exact trust_decision_stmt. Qed.
-Print Assumptions C32_trust_decision.
-
-(* the first half holds whenever the list is empty or has at least one usable entry *)
-Theorem C32_forwarded_only_if_trusted_partial : forall (pip : bytes -> option N) trust cfg q,
-  (cfg = [] \/ exists c, In (Some c) cfg) ->
-  resolve pip trust cfg q <> (Peer, default_scheme q) ->
-  trust = true /\
-  exists t p, q_remote q = Some t /\ pip t = Some p /\
-    (cfg = [] \/ exists c, In (Some c) cfg /\ contains c p = true).
-Proof. exact forwarded_only_if_trusted_partial_stmt. Qed.
-Print Assumptions C32_forwarded_only_if_trusted_partial.
-
-(* a list with a usable entry none of which contains the peer trusts nobody (whatever else is in it) *)
-Theorem C32_unusable_list_partial : forall (pip : bytes -> option N) trust cfg q,
-  (forall t p, q_remote q = Some t -> pip t = Some p -> forall c, In (Some c) cfg -> contains c p = false) ->
-  (exists c, In (Some c) cfg) ->
-  resolve pip trust cfg q = (Peer, default_scheme q).
-Proof. exact unusable_list_partial_stmt. Qed.
-Print Assumptions C32_unusable_list_partial.
-
-(* not trusted, or peer unknown/unparsable: the headers are never looked at *)
-Theorem C32_untrusted_unchanged : forall (pip : bytes -> option N) trust cfg q,
+(* not trusted, or peer unknown/unparsable: the headers are never looked at (either variant) *)
+Theorem C32_untrusted_unchanged : forall (pip : bytes -> option N) fixed trust cfg q,
   trust = false \/ q_remote q = None \/ (exists t, q_remote q = Some t /\ pip t = None) ->
-  resolve pip trust cfg q = (Peer, default_scheme q).
-Proof. exact untrusted_unchanged_stmt. Qed.
+  resolve_gen pip fixed trust cfg q = (Peer, default_scheme q).
+Proof. exact untrusted_unchanged_gen_stmt. Qed.
 Print Assumptions C32_untrusted_unchanged.
 
 (* a forwarded client IP is the parse of the CF-Connecting-IP value or, only when that header is absent,
    of the LEFT-MOST X-Forwarded-For entry (trimmed) *)
-Theorem C32_forwarded_value_origin : forall (pip : bytes -> option N) trust cfg q p s,
-  resolve pip trust cfg q = (Fwd p, s) ->
+Theorem C32_forwarded_value_origin : forall (pip : bytes -> option N) fixed trust cfg q p s,
+  resolve_gen pip fixed trust cfg q = (Fwd p, s) ->
   (exists v, header_value (q_cf q) = Some v /\ pip (trim_space v) = Some p) \/
   (header_value (q_cf q) = None /\
    exists v, header_value (q_xff q) = Some v /\ pip (trim_space (first_part v)) = Some p).
-Proof. exact forwarded_value_origin_stmt. Qed.
+Proof. exact forwarded_value_origin_gen_stmt. Qed.
 Print Assumptions C32_forwarded_value_origin.
 
 (* the scheme is the connection's, or "http"/"https" taken from the first X-Forwarded-Proto entry *)
-Theorem C32_scheme_values : forall (pip : bytes -> option N) trust cfg q,
-  snd (resolve pip trust cfg q) = default_scheme q \/
+Theorem C32_scheme_values : forall (pip : bytes -> option N) fixed trust cfg q,
+  snd (resolve_gen pip fixed trust cfg q) = default_scheme q \/
   (trust = true /\ exists v, header_value (q_proto q) = Some v /\
-     snd (resolve pip trust cfg q) = to_lower (trim_space (first_part v)) /\
-     (snd (resolve pip trust cfg q) = B"http" \/ snd (resolve pip trust cfg q) = B"https")).
-Proof. exact scheme_values_stmt. Qed.
+     snd (resolve_gen pip fixed trust cfg q) = to_lower (trim_space (first_part v)) /\
+     (snd (resolve_gen pip fixed trust cfg q) = B"http" \/ snd (resolve_gen pip fixed trust cfg q) = B"https")).
+Proof. exact scheme_values_gen_stmt. Qed.
 Print Assumptions C32_scheme_values.
 
 (* "lies inside a configured CIDR" is prefix matching inside one address family *)
@@ -108,14 +84,32 @@ Theorem C32_contains_prefix_match : forall c p,
 Proof. exact contains_prefix_match_stmt. Qed.
 Print Assumptions C32_contains_prefix_match.
 
-(* with the one-line repair (nil slice = no list; empty non-nil slice = trust nobody) both halves hold *)
-Theorem C32_fixed_forwarded_only_if_trusted : C32_forwarded_only_if_trusted_full true.
-Proof. exact fixed_forwarded_only_if_trusted_stmt. Qed.
-Print Assumptions C32_fixed_forwarded_only_if_trusted.
-
-Theorem C32_fixed_unusable_list_trusts_nobody : C32_unusable_list_trusts_nobody_full true.
-Proof. exact fixed_unusable_list_trusts_nobody_stmt. Qed.
-Print Assumptions C32_fixed_unusable_list_trusts_nobody.
+(* ---- HISTORICAL: the decision before /repo 4284846 ([resolve pip] = [resolve_gen pip false]: an EMPTY slice of
+   parsed networks meant "trust every peer").  Machine-checked record of the old defect; says nothing about the
+   current code. ---- *)
+Example C32_prefix_forwarded_only_if_trusted_refuted :
+  ~ (forall (pip : bytes -> option N) trust cfg q,
+     resolve_gen pip false trust cfg q <> (Peer, default_scheme q) ->
+     trust = true /\
+     exists t p, q_remote q = Some t /\ pip t = Some p /\
+       (cfg = [] \/ exists c, In (Some c) cfg /\ contains c p = true)).
+Proof. exact forwarded_only_if_trusted_refuted_stmt. Qed.
+Example C32_prefix_unusable_list_trusts_nobody_refuted :
+  ~ (forall (pip : bytes -> option N) trust cfg q,
+     cfg <> [] -> (forall e, In e cfg -> e = None) ->
+     resolve_gen pip false trust cfg q = (Peer, default_scheme q)).
+Proof. exact unusable_list_trusts_nobody_refuted_stmt. Qed.
+Example C32_prefix_witness :   (* TRUSTED_PROXY_CIDRS="10.0.0.1": peer 203.0.113.9 dictated 10.0.0.1 / https *)
+  resolve wit_pip true [None] wit_req = (Fwd 281470849515521, B"https") /\
+  q_remote wit_req = Some B"203.0.113.9" /\ default_scheme wit_req = B"http".
+Proof. exact refuting_witness_stmt. Qed.
+Example C32_prefix_trust_decision :   (* what the old code did *)
+  forall (pip : bytes -> option N) trust cfg q,
+  resolve pip trust cfg q <> (Peer, default_scheme q) ->
+  trust = true /\
+  exists t p, q_remote q = Some t /\ pip t = Some p /\
+    ((forall e, In e cfg -> e = None) \/ exists c, In (Some c) cfg /\ contains c p = true).
+Proof. exact trust_decision_stmt. Qed.
 
 (* non-vacuity: 10.0.0.0/8 contains 10.1.2.3 and not 11.0.0.1; ::ffff:10.0.0.0/104 is the same network;
    ::/0 contains no IPv4 peer (Go's IPNet.Contains compares lengths) *)
@@ -126,10 +120,13 @@ Example C32_ex_contains :
   contains (mkCidr false 0 0) 281470849581571 = false /\ contains (mkCidr false 0 0) 1 = true.
 Proof. vm_compute. repeat split. Qed.
 Example C32_ex_trusted_proxy :   (* a proper list: 10.0.0.1 is trusted and its X-Forwarded-For is honoured *)
-  resolve wit_pip true [Some (mkCidr true 281470849515520 8); None]
+  resolve_gen wit_pip true true [Some (mkCidr true 281470849515520 8); None]
     (mkReq (Some B"10.0.0.1") B"" None (Some [B" 203.0.113.9 , 10.0.0.1"]) (Some [B"HTTPS, http"]))
   = (Fwd 281474087547145, B"https").
 Proof. vm_compute. reflexivity. Qed.
 Example C32_ex_untrusted_peer :  (* the same list does not trust 203.0.113.9 *)
-  resolve wit_pip true [Some (mkCidr true 281470849515520 8); None] wit_req = (Peer, B"http").
+  resolve_gen wit_pip true true [Some (mkCidr true 281470849515520 8); None] wit_req = (Peer, B"http").
+Proof. vm_compute. reflexivity. Qed.
+Example C32_ex_unusable_list :   (* the former witness on the current code: nobody is trusted *)
+  resolve_gen wit_pip true true [None] wit_req = (Peer, B"http").
 Proof. vm_compute. reflexivity. Qed.
